@@ -62,7 +62,7 @@ def run(ctx):
                 rs = [RUNNERS[k % 4]]            # rotate the runner over the records (and the seed)
             elif not ctx.quick() and rec["dev"] > 1:
                 k += 1
-                rs = [RUNNERS[k % 4], RUNNERS[(k + 2) % 4]]
+                rs = [RUNNERS[k % 4]]
             else:
                 rs = RUNNERS
             for ru in RUNNERS:
